@@ -74,7 +74,9 @@ def run_one(factory, case, prefix, max_passes=2000, seen=None, bound=None):
                 clock_ok = nt is not None and nt > loop.time() and nt <= scen.horizon
                 # option 0 is always the default (never a fault)
                 if ready:
-                    options = [RUN] + [l for l, _ in menu] + ([CLOCK] if clock_ok else [])
+                    # letting a timer fall due while callbacks are still queued models a stalled process;
+                    # scenarios that judge wall-clock deadlines switch that deviation off
+                    options = [RUN] + [l for l, _ in menu] + ([CLOCK] if clock_ok and getattr(scen, "clock_when_ready", True) else [])
                 elif menu:
                     options = [l for l, _ in menu] + ([CLOCK] if clock_ok else [])
                 else:
